@@ -33,6 +33,9 @@ def add_calendar(birth, years, months, days, hours, minutes, seconds=0):
 
 
 def run(ctx):
+    from rules import shared
+    ctx.include('month_records', shared.month_records)   # leap table, solstice anchor, month memo, memo cells (shared, cached per source hash)
+    ctx.include('jd_tables', shared.jd_tables)           # civil date <-> day number per (year, month) (shared, cached per source hash)
     I = ctx.interp(fuel=80000000)
     t = T(I)
     p = ctx.prog
@@ -62,6 +65,16 @@ def run(ctx):
                 births.append(from_abs(tn * 86400 + ts + ds))
             births.append(from_abs(tn * 86400 + 5))           # same civil day, before the Jie instant
             births.append(from_abs(tn * 86400 + 86399))
+    # exchange-rate boundaries: the distance to the governing Jie is exactly k units (and one second either side) for every unit of the statement
+    j0 = [j for j in jies if CAL.from_jdn(j[0])[0] == Y][5]
+    jabs = j0[0] * 86400 + j0[1]
+    for unit in (3 * 86400, 86400 // 4, 3600 // 5, 60 // 2):
+        for k in (1, 2, 3, 9, 10):
+            for ds in (-1, 0, 1, 59, 61):
+                for sign in (-1, 1):
+                    a = jabs + sign * (k * unit + ds)
+                    if abs(a - jabs) < 29 * 86400:
+                        births.append(from_abs(a))
     births += [(Y, 12, 31, 23, 59, 59), (Y, 1, 1, 0, 0, 0), (Y, 2, 29, 23, 30, 0), (Y + 1, 1, 31, 22, 59, 45)]
     births = sorted(set(births))
 
